@@ -19,5 +19,8 @@ for l in out.splitlines():
         if bad<=3:
             a=imp[i][1].split(' '); b=obs.split(' ')
             k=next((j for j in range(min(len(a),len(b))) if a[j]!=b[j]),min(len(a),len(b)))
-            print(i,imp[i][0][:400]); print('  first diff at obs token',k,'of',len(a),len(b),'impl:',[x[:80] for x in a[k:k+2]],'model:',[x[:80] for x in b[k:k+2]])
+            print(i,imp[i][0][:400]); x=a[k] if k<len(a) else ''; y=b[k] if k<len(b) else ''
+            xs=x.split(','); ys=y.split(',')
+            m=next((j for j in range(min(len(xs),len(ys))) if xs[j]!=ys[j]),min(len(xs),len(ys)))
+            print('  first diff at obs token',k,'of',len(a),len(b),'sub',m,'impl:',xs[max(0,m-2):m+3],'model:',ys[max(0,m-2):m+3])
 print('cases',len(order),'mismatch',bad)
